@@ -162,6 +162,9 @@ func runCheck(args []string) int {
 		switch o.Kind {
 		case "subset", "bind", "effects", "frame", "secrecy", "ground", "bounded":
 			return true
+		case "inv-init", "inv-preserve":
+			// every postcondition of the function is proved from all of its loop invariants
+			return true
 		}
 		if o.Safety {
 			return cfg.Safety
